@@ -19,16 +19,21 @@ package limit_test
 //     breaker window, go-redis' retry back-off and the limiter's monitor ticker.
 //   * a server-side pre-hook counts the EVAL commands that reach the server per
 //     first key (so "this decision was taken by Redis" is observable) and
-//     implements two deterministic kinds of outage:
-//       drop: every command received is answered by closing its connection
-//             (new connections are accepted and meet the same fate);
-//       err:  every command is answered with -LOADING (what a restarting Redis
-//             says), connections stay open.
-//     In both no pooled connection is left half-dead after recovery. A real
-//     Close/Restart of the server does leave dead connections in go-redis' pool
-//     (v8 notices a dead pooled connection only by using it, 4 attempts per
-//     command), in a number that depends on goroutine scheduling; that kind of
-//     outage is therefore judged by a separate, tolerant rule that runs last.
+//     implements two deterministic kinds of outage in which Redis is there but
+//     serves nothing:
+//       loading: every command is answered with -LOADING (what a restarting
+//                Redis says; go-redis retries it 3 times with back-off);
+//       err:     every command is answered with -ERR max number of clients
+//                reached (not retried).
+//     Connections stay open, so no pooled connection is half-dead after
+//     recovery. A real Close/Restart of the server does leave dead connections
+//     in go-redis' pool (v8 notices a dead pooled connection only by using it,
+//     4 attempts per command), in a number that depends on goroutine
+//     scheduling; that kind of outage is therefore judged by a separate,
+//     tolerant rule that runs last. (A third kind, closing the connection of
+//     every command from the server side, was tried and dropped: it piles up
+//     server-side TIME_WAIT sockets on the port, and later connection attempts
+//     to the closed port then stall for real seconds.)
 
 import (
 	"sort"
@@ -48,7 +53,7 @@ func init() {
 
 const (
 	c08Up int32 = iota
-	c08Drop
+	c08Loading
 	c08Err
 )
 
@@ -75,11 +80,11 @@ var c08Epoch = time.Unix(946684800, 0)
 
 func (s *c08Server) hook(c *server.Peer, cmd string, args ...string) bool {
 	switch s.mode.Load() {
-	case c08Drop:
-		c.Close()
+	case c08Loading:
+		c.WriteError("LOADING Redis is loading the dataset in memory")
 		return true
 	case c08Err:
-		c.WriteError("LOADING Redis is loading the dataset in memory")
+		c.WriteError("ERR max number of clients reached")
 		return true
 	}
 	if cmd == "EVAL" && len(args) >= 3 {
